@@ -794,14 +794,23 @@ def run(desc):
         for k, p in enumerate(plates):
             P[k, :, :sizes[k]] = arr(p, "mu")
             V[k, :, :sizes[k]] = arr(p, "var")
+        wV = [[[None if math.isnan(x) else [frac(x)] for x in row] for row in pl] for pl in V.tolist()]
+        wP = [_fq(pl) for pl in P.tolist()]
         rr = RecRng(seed)
         scores = _canon_scores(G.dbal_fast_gauss_scoring_vectorized(
             predictions=P, variances=V, distance_matrix=np.array(D, dtype=float), rng=rr, max_combos=mc, distance_factor=df))
         bad = _contract(rr.calls, T, mc, 1)
         triples = all_triples if full else _triples_of(rr.calls[0]["result"], T)
         pred = bad or _pred_direct(scores, plates, D, df, triples, "vectorized kernel")
-        wV = [[[None if math.isnan(x) else [frac(x)] for x in row] for row in pl] for pl in V.tolist()]
-        wire = [0, [_fq(pl) for pl in P.tolist()], wV, _fq(D), frac(df), rr.calls[0]["result"]]
+        # the dense arrays belong to the caller: a second evaluation on the SAME arrays (same recorded draw) must score the same,
+        # i.e. the kernel must not have written into them (NaN padding replaced in place would turn padding into experiments)
+        if pred is None:
+            rr2 = RecRng(seed)
+            again = _canon_scores(G.dbal_fast_gauss_scoring_vectorized(
+                predictions=P, variances=V, distance_matrix=np.array(D, dtype=float), rng=rr2, max_combos=mc, distance_factor=df))
+            if again != scores:
+                pred = "vectorized kernel: a second evaluation on the same padded arrays scores %r, the first scored %r (the kernel wrote into its arguments)" % (again, scores)
+        wire = [0, wP, wV, _fq(D), frac(df), rr.calls[0]["result"]]
         return dict(wire=wire, impl=scores, pred=pred, features=feats, cmp=cmp_result(_cmp_scores))
 
     if kind == "homo":
